@@ -46,6 +46,17 @@ fn cb_action(mut env: ActionEnv) {
         std::mem::forget(env);
         return;
     }
+    {
+        // An action may run only because its own clean() was called or because its Cleaner is being / has been dropped
+        let m = c.model.borrow();
+        let owner = m.actions[aid].owner as usize;
+        let owner_gone = m.objs[owner].dropped;
+        let own_clean = c.stack.borrow().iter().rev().find_map(|f| if let Frame::Clean(x) = f { Some(*x as usize == aid) } else { None }).unwrap_or(false);
+        drop(m);
+        if !owner_gone && !own_clean {
+            v!("C10", "P-clean", "cleaning action #{} ran although neither its own clean() was called nor its Cleaner dropped", aid);
+        }
+    }
     let _f = FrameGuard::new(Frame::Action(env.aid));
     crash_point(CpKind::Action);
     if !std::thread::panicking() && !has_violation() {
